@@ -56,6 +56,14 @@ func pkgSub(c *rt.Ctx, a, b int) int { c.X(907, a*100+b); return a - b }
 
 func ident[T any](x T) T { return x }
 
+func etaSrc(c *rt.Ctx, k int) Iter[int] {
+	c.X(920, k)
+	Yield(k)
+	c.X(921, k)
+	Yield(k + 1)
+	return nil
+}
+
 type adder struct {
 	c *rt.Ctx
 	k int
@@ -113,6 +121,9 @@ var etaCallees = []etaCallee{
 	{name: "variadic-forward-any", prelude: "var keep any", call: "pkgSum", sig: "(c *rt.Ctx, xs []int) int", args: "c, xs...", invoke: "c, []int{1, 2}", mutate: "keep = h\n\tif _, ok := keep.(func(*rt.Ctx, []int) int); !ok { c.E(77) }"},
 	{name: "plaintype-narrowing", prelude: "var keep any", call: "pkgArea", sig: "(c *rt.Ctx, s Sq) int", args: "c, s", invoke: "c, Sq{3}", mutate: "keep = h\n\tif _, ok := keep.(func(*rt.Ctx, Sq) int); !ok { c.E(77) }"},
 	{name: "plaintype-same", call: "pkgSide", sig: "(c *rt.Ctx, s Sq) int", args: "c, s", invoke: "c, Sq{3}"},
+	{name: "itervar-reassigned", prelude: "cur := etaSrc(c, 1)", call: "cur.MoveNext", mutate: "cur = etaSrc(c, 5)", sig: "() bool", args: "", invoke: ""},
+	{name: "itervar-nil", prelude: "var cur Iter[int]", call: "cur.MoveNext", mutate: "cur = etaSrc(c, 5)", sig: "() bool", args: "", invoke: ""},
+	{name: "iterparam-reassigned", prelude: "cur := etaSrc(c, 1)\n\tcur = func(it Iter[int]) Iter[int] { it.MoveNext(); return it }(cur)", call: "cur.MoveNext", mutate: "cur = etaSrc(c, 5)", sig: "() bool", args: "", invoke: ""},
 	{name: "widening", prelude: "f := func(a int) int { c.X(1, a); return a + 1 }", call: "f", sig: "(a int) any", args: "a", invoke: "10"},
 	{name: "recvar", prelude: "var fact func(int) int\n\tfact = func(n int) int { c.X(1, n); if n <= 1 { return 1 }; return n * fact(n-1) }", call: "fact", mutate: "old := fact\n\tfact = func(n int) int { c.X(2, n); return old(n) + 1000 }", sig: "(n int) int", args: "n", invoke: "3"},
 }
